@@ -38,7 +38,7 @@ package predicates
 //@ declare newGpuGroup(task *pod_info.PodInfo, node *node_info.NodeInfo) bool
 
 //@ func (*predicatesPlugin).willCreateNewGpuGroup
-//@   props C04
+//@   props C04 C01
 //@   trusted
 //@   note naming device, not a behavioural assumption: the body calls Session.FittingGPUs (plugin callbacks through function values, outside the subset) and gpu_sharing.GetNodePreferableGpuForSharing; its boolean answer is given the name newGpuGroup(task, node). Treated as read-only (it only ranks GPUs).
 //@   pure
@@ -48,7 +48,7 @@ package predicates
 // C04 (max pods): a placement is accepted only if the node still has a pod slot for the task, and TWO
 // slots when a shared-GPU task needs a new GPU group (the reservation pod takes one).
 //@ func (*predicatesPlugin).checkMaxPodsWithGpuGroupReservation
-//@   props C04
+//@   props C04 C01
 //@   requires pp != nil && task != nil && node != nil && node.Idle != nil && node.Releasing != nil
 //@   ensures [maxPods] (result == nil) == ite(!sharedReq(task), podSlots(node) > 0.0, !newGpuGroup(task, node) || podSlots(node) >= 2.0)
 //@   ensures [oneSlotForWholeGpuTask] result == nil && !sharedReq(task) ==> podSlots(node) > 0.0
